@@ -247,6 +247,17 @@ def handle (A : Arches) (line : String) : String :=
     (match p.run rest with
      | some (r, []) => r
      | _ => "BAD-REQUEST")
+  | "Y" :: rest =>
+    -- oracle for the builder: Y endian ncalls call* n instr*
+    let p : P String := do
+      let e ← pEndian
+      let n ← nat
+      let toks ← pCalls e n 1
+      let prog ← counted pInstr
+      pure (Oracle.checkBuilder toks prog)
+    (match p.run rest with
+     | some (r, []) => r
+     | _ => "BAD-REQUEST")
   | "X" :: rest =>
     -- oracle: run the implementation's program against the specification on the event partition
     let p : P String := do
